@@ -505,20 +505,24 @@ pub(crate) struct WritersHandle {
 }
 impl WritersHandle {
     fn set_new_spec(&self, new_spec: LogSpecification) -> Result<(), FlexiLoggerError> {
-        let max_level = new_spec.max_level();
-        self.spec
-            .write()
-            .map_err(|_| FlexiLoggerError::Poison)?
-            .update_from(new_spec);
-        self.reconfigure(max_level);
+        // The writers are asked before the lock is taken; the spec and the global max level
+        // are then updated together under the lock, so that concurrent calls cannot interleave.
+        let max_level = self.max_level_with_writers(new_spec.max_level());
+        let mut spec_guard = self.spec.write().map_err(|_| FlexiLoggerError::Poison)?;
+        spec_guard.update_from(new_spec);
+        log::set_max_level(max_level);
         Ok(())
     }
 
-    pub(crate) fn reconfigure(&self, mut max_level: log::LevelFilter) {
+    fn max_level_with_writers(&self, mut max_level: log::LevelFilter) -> log::LevelFilter {
         for w in self.other_writers.as_ref().values() {
             max_level = std::cmp::max(max_level, w.max_log_level());
         }
-        log::set_max_level(max_level);
+        max_level
+    }
+
+    pub(crate) fn reconfigure(&self, max_level: log::LevelFilter) {
+        log::set_max_level(self.max_level_with_writers(max_level));
     }
 }
 impl Drop for WritersHandle {
